@@ -1,5 +1,6 @@
 import ModVerif.Drv.MainLoop
 import ModVerif.Drv.Modfile
+import ModVerif.Drv.GenModfile
 open ModVerif.Drv
 
-def main : IO Unit := runMain [("modfile", Modfile.handle)]
+def main : IO Unit := runMain [("modfile", Modfile.handle), ("gmodfile", GenModfile.handle)]
